@@ -158,3 +158,71 @@ theorem succ_wf {c : Cal} (hb : Bijective c) (hc : Consecutive c) (t : Int × In
   rw [← s]; exact hb.jdTo_wf _
 
 end Starcal.Props
+
+namespace Starcal.Props
+open Starcal.Drv
+
+/-- lexicographic order on (year, month, day) -/
+def lexLt (a b : Int × Int × Int) : Prop :=
+  a.1 < b.1 ∨ (a.1 = b.1 ∧ (a.2.1 < b.2.1 ∨ (a.2.1 = b.2.1 ∧ a.2.2 < b.2.2)))
+
+theorem lexLt_trans {a b c : Int × Int × Int} (h1 : lexLt a b) (h2 : lexLt b c) : lexLt a c := by
+  unfold lexLt at *; omega
+
+theorem lexLt_irrefl (a : Int × Int × Int) : ¬ lexLt a a := by unfold lexLt; omega
+
+/-- the calendar successor of a well-formed date is later in date order -/
+theorem lexLt_succ (c : Cal) (t : Int × Int × Int) (hw : WF c t) : lexLt t (succ c t) := by
+  rcases t with ⟨y, m, d⟩
+  obtain ⟨h0, h1, h2, h3, h4⟩ := hw
+  simp only at h0 h1 h2 h3 h4
+  unfold succ lexLt
+  simp only
+  by_cases a : d < c.monthLen y m
+  · simp only [a, if_true, true_and]; omega
+  · simp only [a, if_false]
+    by_cases b : m < 12
+    · simp only [b, if_true, true_and]; omega
+    · simp only [b, if_false]
+      by_cases e : c.skipYear0 = true ∧ y = -1
+      · simp only [e, and_self, if_true]; omega
+      · simp only [e, if_false]; omega
+
+/-- **date order equals day-number order** (C02's consequence), for every configuration that is
+    consecutive: jd₁ < jd₂ ↔ date(jd₁) is before date(jd₂) -/
+theorem Consecutive.date_order {c : Cal} (h : Consecutive c) (a b : Int) :
+    a < b ↔ lexLt (c.jdTo a) (c.jdTo b) := by
+  have up : ∀ (n : Nat) (a : Int), lexLt (c.jdTo a) (c.jdTo (a + n + 1)) := by
+    intro n
+    induction n with
+    | zero =>
+      intro a
+      have := lexLt_succ c (c.jdTo a) (h.jdTo_wf a)
+      rw [← h.succ_step] at this
+      simpa using this
+    | succ n ih =>
+      intro a
+      have s := lexLt_succ c (c.jdTo (a + n + 1)) (h.jdTo_wf _)
+      rw [← h.succ_step] at s
+      have e : a + ((n + 1 : Nat) : Int) + 1 = a + n + 1 + 1 := by omega
+      rw [e]
+      exact lexLt_trans (ih a) s
+  constructor
+  · intro hab
+    have := up (b - a - 1).toNat a
+    have e : a + ((b - a - 1).toNat : Int) + 1 = b := by omega
+    rwa [e] at this
+  · intro hl
+    by_cases hab : a < b
+    · exact hab
+    · exfalso
+      by_cases heq : a = b
+      · subst heq; exact lexLt_irrefl _ hl
+      · have := up (a - b - 1).toNat b
+        have e : b + ((a - b - 1).toNat : Int) + 1 = a := by omega
+        rw [e] at this
+        exact lexLt_irrefl _ (lexLt_trans hl this)
+
+example : lexLt (calGprol.jdTo 1721425) (calGprol.jdTo 1721426) := by unfold lexLt; decide
+
+end Starcal.Props
